@@ -246,7 +246,7 @@ def gen_c03(tier, seed):
     for i in range(n):
         o = rng.choice(OPTS_POOL[:6])
         t1 = random_tree(rng, nmax=rng.choice([3, 5, 7]), pre_epoch=False, maxlen=8)
-        prev = rng.choice(["none", "one", "one", "two", "incomplete"])
+        prev = ["none", "one", "two", "incomplete", "emptyhead", "one", "headless"][i % 7]
         steps = []
         if prev != "none":
             t0 = mutate_tree(rng, t1, maxlen=8)
@@ -255,6 +255,12 @@ def gen_c03(tier, seed):
                 steps += [{"op": "tree", "tree": mutate_tree(rng, t0, maxlen=8)}, bk(o)]
             if prev == "incomplete":
                 steps += [{"op": "tree", "tree": mutate_tree(rng, t0, maxlen=8)}, bk(o, crash_at=rng.randrange(8, 30))]
+            if prev == "emptyhead":
+                # an earlier run killed while writing its BANDHEAD (zero-length head), between a complete
+                # version and the run under test
+                steps += [{"op": "tree", "tree": mutate_tree(rng, t0, maxlen=8)}, bk(o, crash_at=6, crash_empty=True)]
+            if prev == "headless":
+                steps += [{"op": "tree", "tree": mutate_tree(rng, t0, maxlen=8)}, bk(o, crash_at=rng.choice([5, 6]))]
         steps += [{"op": "tree", "tree": t1},
                   {"op": "sweep", "base": bk(o), "mode": "crash_both", "sample": 0 if tier != "quick" else 24, "seed": seed * 100 + i,
                    "then": AFTER_CRASH + [bk(o), {"op": "restore", "band": -1}]}]
